@@ -27,6 +27,33 @@ def gen_handles(rng, tier):
         ops.append('lk 0')
         yield ' ; '.join(ops)
 
+def gen_nested_case(rng):
+    """n layers, m spans in a forest, handles that LAYERS drop while they handle the close of some span (`layer:of:drops`), and
+    the user's drops in any order"""
+    n = rng.choice([1, 2, 2, 3, 3])
+    m = rng.choice([2, 3, 4, 5, 6])
+    parents = ['-' if (k == 0 or rng.random() < 0.4) else str(rng.randrange(k)) for k in range(m)]
+    wills = []
+    for _ in range(rng.choice([0, 1, 1, 2, 3])):
+        wills.append('%d:%d:%d' % (rng.randint(1, n), rng.randrange(m), rng.randrange(m)))
+    order = list(range(m)); rng.shuffle(order)
+    order = order[:rng.randint(1, m)]
+    return '%d %d %s ;; %s ;; %s' % (n, m, ' '.join(parents), ' '.join(wills), ' ; '.join('dr %d' % k for k in order))
+
+def gen_nested(rng, tier):
+    n = 1500 if tier == 'quick' else 40000
+    for _ in range(n):
+        yield gen_nested_case(rng)
+
+def _nt_nested(case, out):
+    # some layer's drop inside on_close closed another span: `x<layer>.<of>` directly followed by `x1.<drops>`
+    parts = case.split(' ;; ')
+    if len(parts) != 3: return False
+    for w in parts[1].split():
+        l, of, dr = w.split(':')
+        if of != dr and ('x%s.%sr,x1.%sr' % (l, of, dr)) in out: return True
+    return False
+
 def nontrivial(case, out):
     s = reggen.stats(case, out)
     return s['spans'] >= 3 and s['closes'] >= 2 and (s['cascade'] >= 1 or s['threads'] >= 2)
@@ -57,6 +84,7 @@ PROPERTY = {
                 'cascades up the parent chain (which ends: a parent is always an older span); hence closed_means_nothing_left (never earlier) and nothing_left_means_gone (not later). '
                 'Interleaved releases: a transition system over the atomic operations on one span\'s count, parametrised by whether try_close decides on the value its own fetch_sub returned (close_decision_code_fact, extracted from sharded.rs): '
                 'n threads releasing the n references under EVERY schedule, at most one concludes that it was the last and exactly one once the count is 0 (one_closer_interleaved); with a separate load two do (two_closers_witness); real threads dropping handles together (h_stress) must see each span closed once. Threads as PROGRAMS (Core/HandleRace: clone / drop / a handle moved to another thread, legal only through handles held; any interleaving): the span is reported closed at most once and HAS been reported exactly when no thread holds a handle (closed_exactly_when_last_handle_goes); with a non-atomic clone it is closed under a held handle, with a separately loaded decision closed twice (witnesses); the same model run one call at a time is compared with the real Registry (stream seqhandle). '
+                'The deferred slot removal (Core/CloseGuard: n nested Layered frames, the thread\'s CLOSE_COUNT and the span it counts for, guards, the slot\'s Clear releasing the parent; the rule is the one the translator finds in sharded.rs / layered.rs, close_guard_facts): for EVERY n >= 1, every forest, every set of handles that layers drop INSIDE on_close (nested to any depth) and every order of drops, when a release returns the count is what it was and every span closed on the way has had its slot removed (release_good, closed_spans_are_gone); a span without such a layer-side drop is told to each layer once, innermost first, readable each time, then removed and its parent released (closed_span_is_removed_at_any_depth). Before the repair of F15 (one count per thread) a close started inside another span\'s on_close never removed the slot, for every n and depth (nested_close_never_cleared, f15_witness: the parent never closes; f15_repaired). Stream nested compares the real Registry under 1-3 layers that drop handles inside on_close with this model. '
                 'The real Registry (two recording layers: close notifications, data readable inside on_close, presence afterwards) is compared with the compiled model AND with the count-free specification Spec/RegistrySpec.lean.',
         'note': 'Trusted: Lean kernel; propext/Classical.choice/Quot.sound; sharded_slab (fresh key per checkout, clear runs Clear; ids mapped to creation indices); sequential at op granularity '
                 '(the history model; the fetch_sub race has its own interleaved model, one span at a time); known finding F2 (exit/clear close through the CURRENT default; under no/foreign default parents leak or the wrong registry is hit) is the excluded region.',
@@ -66,14 +94,16 @@ PROPERTY = {
     'leanchecker_modules': ['TracingModel.Props.C05', 'TracingModel.Props.C05R'],
     'extra_bins': ['h_stress'],
     'namespace': 'C05',
-    'units': ['AtomicCounts'],
+    'units': ['AtomicCounts', 'CloseGuardFacts'],
     'required_theorems': ['C05.close_once', 'C05.step_inv', 'C05.tryClose_inv', 'C05.f2_witness',
                           'C05.refcount_sum', 'C05.closed_means_nothing_left', 'C05.nothing_left_means_gone', 'C05.tryClose_acc', 'C05.step_acc',
                           'C05.close_decision_code_fact', 'C05.one_closer_interleaved', 'C05.two_closers_witness',
-                          'C05.closed_exactly_when_last_handle_goes', 'C05.closed_under_a_handle_witness', 'C05.closed_twice_witness'],
+                          'C05.closed_exactly_when_last_handle_goes', 'C05.closed_under_a_handle_witness', 'C05.closed_twice_witness',
+                          'C05.close_guard_facts', 'C05.closed_span_is_removed_at_any_depth', 'C05.release_good', 'C05.closed_spans_are_gone', 'C05.nested_close_never_cleared', 'C05.old_rule_top_level', 'C05.f15_witness', 'C05.f15_repaired'],
     'streams': [
         Stream('own', 'h_registry', gen=gen, nontrivial=nontrivial, spec_mode='spec'),
         Stream('f2', 'h_registry', gen=gen_f2, nontrivial=nontrivial, spec_mode='spec'),
+        Stream('nested', 'h_nested', mode='modelnested', gen=gen_nested, nontrivial=_nt_nested, spec_mode='specnested'),
         Stream('seqhandle', 'h_registry', mode='modelhandle', gen=gen_handles, nontrivial=lambda case, out: case.count('cl 0') >= 2 and 'x0r' in out),
     ],
     'rule': 'one case = one history over a forest of <=14 spans on 1-3 threads: create (contextual/root/explicit parent), clone, drop, guard-style enter/exit incl. out-of-order exits deep in the stack and '
